@@ -8,6 +8,9 @@ import (
 	"time"
 )
 
+// maxChunkLineSize is the longest journal line Count accepts.
+const maxChunkLineSize = 16 * 1024 * 1024
+
 func NewClusterCounter(from time.Time, to time.Time) *ClusterCounter {
 	return &ClusterCounter{from: from, to: to}
 }
@@ -29,6 +32,10 @@ func (c ClusterCounter) Count(reader io.Reader) (*ClusterCountResult, error) {
 		return nil, err
 	}
 	inputScanner := bufio.NewScanner(reader)
+	// A chunk whose sketch has switched to the dense representation is
+	// several hundred kilobytes long, far above bufio.Scanner's default
+	// limit of 64 KiB per line.
+	inputScanner.Buffer(make([]byte, 0, 64*1024), maxChunkLineSize)
 	for inputScanner.Scan() {
 		inputLine := inputScanner.Bytes()
 		sinkInfo := SinkEntry{}
@@ -54,6 +61,9 @@ func (c ClusterCounter) Count(reader io.Reader) (*ClusterCountResult, error) {
 		if err != nil {
 			return nil, err
 		}
+	}
+	if err := inputScanner.Err(); err != nil {
+		return nil, err
 	}
 	result.Sum = counter.Count()
 	return &result, nil
